@@ -1,12 +1,12 @@
 (** Flat interface of the C11 correspondence driver (checks/C11.py, harness zz_verif_c11_test.go).
       case = features ntables (len bytes...)* nexpected (len nums...)* ntables (count ast...)*
-      observation = [encode ast = bytes] ++ flat (ns ast) ++ [class] ++ canonical dump of the model parse
+      observation = [encode ast = bytes; wf_program ast] ++ flat (ns ast) ++ [class] ++ canonical dump of the model parse
                     ++ flat (sorted namespace view of the model's tree, Aml/View.v)
     The harness prints 1, the expected listing it was given (computed by the generator's Python
     transcription of [ns]), the class and the dump of the real tree: agreement therefore checks the Python
     encoder against [encode], the Python [ns] against the Coq [ns], and the real parser against the model. *)
 From Coq Require Import NArith List Bool.
-From FF Require Import Lib.Word Gen.Consts_device_acpi_aml Aml.Stream Aml.Lex Aml.Tree Aml.Parser Aml.Grammar Aml.View.
+From FF Require Import Lib.Word Gen.Consts_device_acpi_aml Aml.Stream Aml.Lex Aml.Tree Aml.Parser Aml.Grammar Aml.View Aml.WfProgram.
 Import ListNotations.
 Local Open Scope N_scope.
 
@@ -53,7 +53,7 @@ Definition run_case (l : list N) : list N :=
               match dec_tables_ast (length r4) (N.to_nat nta) r4 with
               | Some asts =>
                   let '(class, t, imgs) := load payloads in
-                  [if tables_match asts payloads then 1 else 0] ++ flat_entries (ns asts) ++ [class]
+                  [if tables_match asts payloads then 1 else 0; if wf_program asts then 1 else 0] ++ flat_entries (ns asts) ++ [class]
                   ++ (if class =? 0 then dump_tree t ++ flat_entries (sort (view t imgs)) else [])
               | None => [0xbadbad]
               end
